@@ -332,4 +332,33 @@ silent("c04-length-guard-style", ["C04", "C15"], [(MSG, "        if len(self._pa
 fire("c13-class-counter", ["C13"], MSG, "        self._unknown = False\n", "        self._unknown = False\n        RTCMMessage.parsed_count = getattr(RTCMMessage, \"parsed_count\", 0) + 1\n", "class-level counter written by every parse")
 silent("c08-gate-trailer-compare", ["C08", "C01", "C05", "C17"], [(RDR, "            if calc_crc24q(message):", "            if calc_crc24q(message[:-3]) != int.from_bytes(message[-3:], \"big\"):")], "equivalent CRC test (computed remainder vs transmitted trailer)")
 
+# ----------------------------------------------------------------------------- mutants of accepted refactorings
+# (a benign patch of /verif/benign is applied first, then the edit: the generalised rules must still reject the broken version)
+def fire_on(id, props, base, file, old, new, what="", rules=None):
+    V.append({"id": id, "props": props if isinstance(props, list) else [props], "expect": "fire", "edits": [], "base_patch": base,
+              "post_edits": [(file, old, new)], "what": what, "rules": rules or {}})
+
+
+fire_on("r41-outer-range-short", ["C09", "C03"], "R4-1", MSG, "for sat in range(1, nsat + 1):", "for sat in range(1, nsat):", "last satellite's cells never labelled")
+fire_on("r41-label-swapped", ["C09"], "R4-1", MSG, "cellmap[ncell] = (prn, sig)", "cellmap[ncell] = (sig, prn)", "cell label components swapped")
+fire_on("r41-nsig-off", ["C09"], "R4-1", MSG, "nsig = len(sigs)", "nsig = len(sigs) + 1", "signal count off by one: wrong cell bit positions")
+fire_on("r24-enumerate-from-zero", ["C09"], "R2-4", MSG, "enumerate(product(range(nsat), range(nsig)), 1)", "enumerate(product(range(nsat), range(nsig)), 0)", "cell ordinal off by one")
+fire_on("r24-product-transposed", ["C09"], "R2-4", MSG, "product(range(nsat), range(nsig))", "product(range(nsig), range(nsat))", "cells scanned signal-major")
+fire_on("r24-len-key-zero-based", ["C09"], "R2-4", MSG, "self._satmap[len(self._satmap) + 1]", "self._satmap[len(self._satmap)]", "satellite map keyed from 0 while consumers index from 1")
+fire_on("h1-table-index-shift", ["C08"], "H-1", HLP, "((crc >> 16) ^ octet) & 0xFF", "((crc >> 15) ^ octet) & 0xFF", "table indexed by the wrong state bits")
+fire_on("h1-table-no-mask", ["C08"], "H-1", HLP, "((crc << 8) & 0xFFFFFF)", "(crc << 8)", "state not reduced to 24 bits")
+fire_on("r53-short-result-returned", ["C01", "C02"], "R5-3", RDR, "if nread >= size:", "if nread >= size or nread > 2:", "a short read of 3+ bytes is returned as if complete")
+fire_on("r53-eof-for-zero-request", ["C02"], "R5-3", RDR, "if nread >= size:", "if nread >= size and nread > 0:", "zero-length request reported as end of data")
+fire_on("r46-layer-count-plus-two", ["C03", "C10", "C06"], "R4-6", MSG, "gsiz += 1\n        return gsiz", "gsiz += 2\n        return gsiz", "layer group repeated once too often")
+fire_on("r46-helper-skips-first", ["C03"], "R4-6", MSG, "for anamg in gdict:\n            offset, index = self._set_attribute(anamg, gdict, offset, index)\n        return offset, index", "for anamg in list(gdict)[1:]:\n            offset, index = self._set_attribute(anamg, gdict, offset, index)\n        return offset, index", "extracted body helper drops the first field of every group")
+fire_on("r66-collate-short", ["C18"], "R6-6", HLP, "for i in range(1, size + 1):", "for i in range(1, size):", "last satellite / cell dropped from the arrays")
+fire_on("r66-att2idx-first-only", ["C19"], "R6-6", HLP, "return tuple(int(idx) for idx in indices)", "return int(indices[0])", "nested index collapsed to its first level")
+fire_on("r42-size-attrs-swapped", ["C03", "C09"], "R4-2", MSG, '{"DF394": NSAT, "DF395": NSIG, "DF396": NCELL}', '{"DF394": NSIG, "DF395": NSAT, "DF396": NCELL}', "satellite / signal counts exchanged")
+fire_on("r42-harmonic-floor-misplaced", ["C03", "C10"], "R4-2", MSG, "nc = (N + 1) * (N + 2) // 2 - (N - M) * (N - M + 1) // 2", "nc = (N + 1) * (N + 2) // 2 - (N - M) * (N - M - 1) // 2", "wrong coefficient count")
+fire_on("r45-stub-number-field", ["C15"], "R4-5", MSG, "self.DF002 = self.identity", "self.DF003 = self.identity", "stub stores the message number under the wrong name")
+fire_on("r63-shared-run-field-changed", ["C10"], "R6-3", GET, '    "DF039": "GLONASS L1 Code Indicator",', '    "DF040": "GLONASS L1 Code Indicator",', "refactored tables: a field key changed in a shared run of attributes")
+fire_on("r56-table-wrong-parser", ["C02"], "R5-6", RDR, '(NMEA_HDR, "_parse_nmea"),', '(NMEA_HDR, "_parse_ubx"),', "NMEA sentences handed to the UBX skipper")
+fire_on("r56-table-name-typo", ["C04"], "R5-6", RDR, '((UBX_HDR,), "_parse_ubx"),', '((UBX_HDR,), "_parse_ubxx"),', "AttributeError from the name-driven dispatch")
+fire_on("r56-else-on-wrong-level", ["C02"], "R5-6", RDR, "                        (raw_data, parsed_data) = getattr(self, parser)(bytehdr)\n                        break\n", "                        (raw_data, parsed_data) = getattr(self, parser)(bytehdr)\n", "skipped protocols fall into the RTCM3 / unknown-header branch")
+
 VARIANTS = V
